@@ -216,9 +216,11 @@ VALIDATE_FIRST = {"declared-outputs-disagree", "callee-not-a-function", "load-no
                   "poly-call", "poly-load"}
 
 
-#: families applicable in every state: their usable-after-refusal check is left to the thorough tier (cost)
+#: families applicable in every state: their usable-after-refusal check is left to the thorough tier, which runs it
+#: over the quick plan's states (cost: a completion and a validation per state and fault)
 EVERYWHERE = {"callee-not-a-function", "load-not-a-function", "int-in-untracked-builder", "serialize-incomplete"}
 _TIER = "quick"
+_ALL_FAMILIES = False
 
 
 def state_oracle(sc, ctx, prog):
@@ -251,7 +253,7 @@ def state_oracle(sc, ctx, prog):
         # refusals that happen before the graph is touched (see VALIDATE_FIRST) leave the builder usable: the
         # program can still be completed and the completed HUGR is valid
         fam = fid.split(":")[0]
-        if (fam in VALIDATE_FIRST or fid in VALIDATE_FIRST) and (_TIER == "thorough" or fam not in EVERYWHERE):
+        if (fam in VALIDATE_FIRST or fid in VALIDATE_FIRST) and (_ALL_FAMILIES or fam not in EVERYWHERE):
             n += 1
             try:
                 if not bpm.complete(c2) and bpm.default_completion(c2) is None:
@@ -329,13 +331,26 @@ def check_tracked(case):
 
 
 def run(tier: str, seed: int) -> Result:
-    global _TIER
+    global _TIER, _ALL_FAMILIES
     _TIER = tier
+    _ALL_FAMILIES = False
     col = Collector()
     r = e2.explore(SCENARIOS, None, PLAN[tier], state_oracle=state_oracle)
     for sig, msg, case in r.fails:
         case["tier"] = tier
         col.add(sig, msg, case)
+    if tier == "thorough":
+        # second pass: the states of the quick plan again, this time with the usable-after-refusal check for every family
+        _ALL_FAMILIES = True
+        r2 = e2.explore(SCENARIOS, None, PLAN["quick"], state_oracle=state_oracle)
+        _ALL_FAMILIES = False
+        for sig, msg, case in r2.fails:
+            case["tier"] = tier
+            case["all_families"] = True
+            col.add(sig, msg, case)
+        r.aux += r2.aux
+        r.states += r2.states
+        r.transitions += r2.transitions
     n_tr = 0
     for case in tracked_cases(tier):
         n_tr += 1
@@ -368,8 +383,9 @@ def run(tier: str, seed: int) -> Result:
 def replay(case) -> list[Violation]:
     if "tracked" in case:
         return [Violation(s, m, case) for s, m in check_tracked(case["tracked"])]
-    global _TIER
+    global _TIER, _ALL_FAMILIES
     _TIER = case.get("tier", "thorough")
+    _ALL_FAMILIES = bool(case.get("all_families"))
     sc = SCENARIOS[case["scenario"]]
     ctx = bpm.run(sc, case["program"])
     return [Violation(s, m, case) for s, m in state_oracle(sc, ctx, case["program"])[0]]
